@@ -6,6 +6,7 @@ import (
 	"io"
 	"math/rand"
 	"strings"
+	"time"
 
 	"github.com/dsnet/compress/xflate"
 	"github.com/dsnet/compress/xflate/verifharness/vhlib"
@@ -51,7 +52,27 @@ type xwResult struct {
 // runXW drives a real xflate.Writer. sink==nil uses a plain buffer.
 var xwCopyTurn int
 
+// runXW runs the history under a watchdog: a Writer call that does not return within 30 s ends the
+// history with Panic = "hang: ..." (the stuck goroutine is abandoned; after two such histories the
+// rest are skipped the same way).
 func runXW(cfg xwCfg, ops []xwOp, sink io.Writer, buf *bytes.Buffer) (res xwResult) {
+	if xwHangs >= 2 {
+		return xwResult{NewErr: "nil", Panic: "hang: skipped after two histories that did not return"}
+	}
+	done := make(chan xwResult, 1)
+	go func() { done <- runXW0(cfg, ops, sink, buf) }()
+	select {
+	case res = <-done:
+		return res
+	case <-time.After(30 * time.Second):
+		xwHangs++
+		return xwResult{NewErr: "nil", Panic: "hang: an xflate.Writer call did not return within 30 s"}
+	}
+}
+
+var xwHangs int
+
+func runXW0(cfg xwCfg, ops []xwOp, sink io.Writer, buf *bytes.Buffer) (res xwResult) {
 	defer func() {
 		if p := recover(); p != nil {
 			res.Panic = fmt.Sprint(p)
